@@ -311,6 +311,28 @@ func c08(c *Ctx) {
 			}
 		})
 		r.Check("retrieveThresholds:at-most-limit-buckets", okTrunc, rt.Pos(), "thresholds are truncated to min(len, limit)")
+		// order: split -> parse (skipping unparsable items) -> truncate: the limit counts parsed bounds only
+		okOrder := false
+		eachInstr(rt, func(in ssa.Instruction) {
+			if sl, ok := in.(*ssa.Slice); ok && sl.High != nil && strings.Contains(exprString(sl.High, 0), "min(") {
+				if pc, ok := sl.X.(*ssa.Call); ok && staticCallee(pc) == mp {
+					if sc, ok := pc.Call.Args[0].(*ssa.Call); ok && isCall(sc, "strings.Split") {
+						okOrder = true
+					}
+				}
+			}
+		})
+		r.Check("retrieveThresholds:truncates-parsed-bounds", okOrder, rt.Pos(), "the limit is applied to mapToThresholds(strings.Split(...)), i.e. after unparsable items were skipped (truncating the raw items lets a malformed item use up a bucket slot)")
+		// what is returned is that truncated slice
+		okRet := false
+		eachInstr(rt, func(in ssa.Instruction) {
+			if ret, ok := in.(*ssa.Return); ok {
+				if sl, ok := ret.Results[0].(*ssa.Slice); ok && sl.High != nil {
+					okRet = true
+				}
+			}
+		})
+		r.Check("retrieveThresholds:returns-truncated", okRet, rt.Pos(), "the truncated slice is what is returned")
 		mn := w.Func(P, "min")
 		if mn != nil {
 			okMin := false
